@@ -246,9 +246,14 @@ theorem header_map {v : Val} (h : okMap v = true) : Header (mapToks v) (mapSx v)
   | regA n src => exact Header.mapWhole n _
   | regS n src a b c =>
     simp only [okMap, Bool.and_eq_true] at h
-    obtain ⟨⟨⟨⟨_, ha⟩, hb⟩, hc⟩, _⟩ := h
-    exact Header.mapSlice n _ (OptLetOrInt.some (letOrInt_ref ha)) (OptLetOrInt.some (letOrInt_ref hb))
-      (OptStep.some (letOrInt_ref hc))
+    obtain ⟨⟨⟨_, ha⟩, hb⟩, hc⟩ := h
+    by_cases hw : writesStep c = true
+    · have := Header.mapSlice n (nameOf src) (OptLetOrInt.some (letOrInt_ref ha)) (OptLetOrInt.some (letOrInt_ref hb))
+        (OptStep.some (letOrInt_ref hc))
+      simpa [mapToks, mapSx, stepToks, stepSx, hw] using this
+    · have := Header.mapSlice n (nameOf src) (OptLetOrInt.some (letOrInt_ref ha)) (OptLetOrInt.some (letOrInt_ref hb))
+        OptStep.none
+      simpa [mapToks, mapSx, stepToks, stepSx, hw] using this
   | _ => simp [okMap] at h
 
 theorem body_macro {m : Macro} (h : okMacro m = true) : Body (macroToks m) (macroSx m) := by
